@@ -26,6 +26,7 @@ type travRealTree struct {
 	// pass that is traversed)
 	earlyPre, earlyPost func(func(*newick.Node) bool)
 	useEarly            bool
+	panicked            bool // a traversal panicked
 }
 
 // travBuildTree makes real nodes from child lists (kids[v-1] = children of v in slice order).
@@ -88,10 +89,14 @@ func (t *travRealTree) walk(pre bool) []int {
 			seq = t.earlyPre
 		}
 	}
-	seq(func(n *newick.Node) bool {
-		out = append(out, t.id[n])
-		return len(out) < limit
-	})
+	if p, _ := catch(func() {
+		seq(func(n *newick.Node) bool {
+			out = append(out, t.id[n])
+			return len(out) < limit
+		})
+	}); p {
+		t.panicked = true
+	}
 	return out
 }
 
@@ -188,6 +193,7 @@ type travEvent struct {
 	Pos    []int   `json:"pos"`  // ... and where each node was seen in pre (0: never)
 	Ppos   []int   `json:"ppos"` // ... and in post
 	// re-entrancy (small trees): one iter.Seq value iterated while another pass over the same value is in progress
+	Panic  bool  `json:"panic"` // one of the passes panicked
 	Nested bool  `json:"nested"`
 	NPre   []int `json:"npre"`   // outer PreOrder pass, a complete inner pass over the same value at every step
 	NPost  []int `json:"npost"`  // the same for PostOrder
@@ -471,6 +477,7 @@ func traverseDrive(args []string) error {
 			ev.NPost, _ = t.nestedWalk(t.nodes[1].PostOrder())
 		}
 		ev.After = t.encode()
+		ev.Panic = t.panicked
 		// subtree sizes from the harness's own parent table: children were created after their parents
 		size := make([]int, n+1)
 		for k := n - 1; k >= 0; k-- {
